@@ -91,8 +91,15 @@ func SimC04(c *CheckCtx, i int, r *Rng) error {
 		gens = RealGens(names)
 		c.Env.Stats.Add("probe/real-generators-world", 1)
 	}
+	walk := false
+	if !real && i%9 == 7 {
+		// handlers of several packages over shared recursive helpers, rendered through Package.ResultsOf
+		m, names, gens = walkWorld(r, base)
+		walk = true
+		c.Env.Stats.Add("probe/shared-helper-results-world", 1)
+	}
 	clash := false
-	if !real && i%5 == 2 {
+	if !real && !walk && i%5 == 2 {
 		// import names that have to be disambiguated: aliases must not depend on map order or on what
 		// the process generated before
 		m, names, gens = clashWorld(r, base)
@@ -279,6 +286,30 @@ func SimC04(c *CheckCtx, i int, r *Rng) error {
 			return []Op{run(true), {Kind: "touch", K: pi, Path: f, SameSize: true}, run(false), run(false), {Kind: "touch", K: pi, Path: f, SameSize: true, MTime: "keep"}, run(false)}
 		}
 		sc.Variants = append(sc.Variants, Variant{Name: "pair:edits:fresh-processes", Ops: hist(true)}, Variant{Name: "pair:edits:one-process", Ops: hist(false)})
+	}
+	if !real && (walk || i%4 == 2) {
+		// an incremental run (everything cached but one edited package) ends in the same files as a forced
+		// run over the same tree: what a package's file says does not depend on which other packages
+		// happened to be regenerated with it
+		pi := r.Intn(len(m.Pkgs))
+		if walk {
+			pi = 0 // the shared helpers
+		}
+		f := m.Pkgs[pi].Files[0].Name
+		hist := func(force bool) []Op {
+			a := args
+			a.All, a.Force = true, false
+			a.Entrypoint = []string{"./..."}
+			run := func(forced bool) Op {
+				b := a
+				b.Force = forced
+				return Op{Kind: "run", Run: &RunOp{Args: b, Gens: gens, Sched: asc, Fresh: true}}
+			}
+			// (the first run is forced: whatever the world held before - outputs of other generator versions -
+			// is replaced; the cache knows nothing about generator versions)
+			return []Op{run(true), run(false), {Kind: "touch", K: pi, Path: f, Note: "one package edited"}, run(force)}
+		}
+		sc.Variants = append(sc.Variants, Variant{Name: "pair:incremental:cached", Ops: hist(false)}, Variant{Name: "pair:incremental:forced", Ops: hist(true)})
 	}
 	if clash {
 		// ... nor on which single package the process generated before (in a scratch copy)
